@@ -50,6 +50,9 @@ func appendHookDetails(b []byte, hookName string, metas []FenceMeta) []byte {
 }
 
 func objIsSpatial(obj geojson.Object) bool {
+	if _, ok := obj.(*geojson.Circle); ok {
+		return true
+	}
 	_, ok := obj.(geojson.Spatial)
 	return ok
 }
